@@ -162,7 +162,7 @@ def run(ctx):
             sorts.append(b)
     # high multiplicities over a tiny alphabet: K copies of one value against one copy of its successor (counters packed into a
     # machine word overflow into their neighbour at K = 16 or 256), the lengths kept equal
-    for K in ((16, 17, 32) if ctx.quick else (15, 16, 17, 31, 32, 33, 64, 256)):
+    for K in ((16, 17, 32) if ctx.quick else (15, 16, 17, 31, 32, 33, 48, 64)):      # (beyond that, compilers give up on the fold expressions)
         for v, y in ((0, 2), (1, 3), (2, 0)):
             a = [v] * K + [y + 1]
             b = [v + 1] + [y] * K
